@@ -439,7 +439,8 @@ fn run(ctx: &RunCtx) {
             }
             // the prefix / key of a compound assignment is written twice: a token of the target that
             // spans several lines (a multi-line string) takes its lines twice (same known finding)
-            if avoid_compound_target && config.contains("remove_compound_assignment") && has_multiline_token_before_compound_operator(&source) {
+            // (remove_floor_division rewrites `a //= b` the same way: the target is written twice)
+            if avoid_compound_target && (config.contains("remove_compound_assignment") || config.contains("remove_floor_division")) && has_multiline_token_before_compound_operator(&source) {
                 st.class("config_skipped_known_finding");
                 continue;
             }
@@ -487,6 +488,9 @@ fn run(ctx: &RunCtx) {
             }
             if avoid_recv && case.config.contains("remove_method_call") {
                 return CaseResult::Discard("avoided: known finding method-call-multiline-receiver");
+            }
+            if avoid_compound_target && (case.config.contains("remove_compound_assignment") || case.config.contains("remove_floor_division")) && has_multiline_token_before_compound_operator(text) {
+                return CaseResult::Discard("avoided: known finding compound-target-over-several-lines");
             }
         }
         st.class(&format!("bundle_modules:{}", case.files.len() - 1));
